@@ -340,6 +340,11 @@ func (k Keeper) ResetMetaDuration(ctx sdk.Context, meta *types.Metadata) {
 		}
 	}
 
+	if expiredHeight <= uint64(ctx.BlockHeight()) {
+		// no live shard is left (for example right after a force-push, before the new shard
+		// is completed): let the model expire at the next block instead of wrapping around
+		expiredHeight = uint64(ctx.BlockHeight()) + 1
+	}
 	newDuration := expiredHeight - meta.CreatedAt
 
 	if meta.Duration != newDuration {
